@@ -37,16 +37,16 @@ class DS:
 
     def frame(self):
         import pandas as pd
-        cols = [c[0] for c in self.comps]
-        df = pd.DataFrame([[r.get(c) for c in cols] for r in self.rows], columns=cols)
+        dt = {"Integer": "Int64", "Boolean": "boolean", "Number": "Float64"}
+        data = {}
         for n, t, _, _ in self.comps:
-            if t == "Integer":
-                df[n] = df[n].astype("Int64")
-            elif t == "Boolean":
-                df[n] = df[n].astype("boolean")
-            elif t in ("String", "Date", "Time_Period", "Time", "Duration"):
-                df[n] = df[n].astype("object")
-        return df
+            vals = [r.get(n) for r in self.rows]
+            if t in dt:
+                col = pd.array(vals, dtype=dt[t])
+                data[n] = pd.Series(col).astype("float64") if t == "Number" else pd.Series(col)
+            else:
+                data[n] = pd.Series(vals, dtype="object")
+        return pd.DataFrame(data, columns=[c[0] for c in self.comps])
 
 
 def run(script, dss, scalars=None, **kw):
